@@ -1753,5 +1753,525 @@ theorem animated_rel (cfg : Config) (L1 start : Nat) (r : RS) (pos : Nat) (cs : 
       rw [this]; exact hexit
     · exact Tri.fail
 
+/-! ### the extended format -/
+
+theorem LoopExit.bnd {L1 start : Nat} {r : RS} {pos : Nat} {all : List Chunk} (h : LoopExit s L1 start r pos all) :
+    Bnd s L1 start r 1 pos all := by
+  rcases h with ⟨a, b, _⟩ | ⟨c, _, hp⟩
+  · exact Or.inl (Or.inl ⟨a, b⟩)
+  · exact Or.inr ⟨c, hp⟩
+
+/-- T1 for `read_header(name)` from a boundary where the next header may already have been peeked -/
+theorem next_named_b (L start : Nat) (r : RS) (k pos : Nat) (cs : List Chunk) (name : Bytes) (hk : k ≤ 2) (h1k : 1 ≤ k)
+    (hL : limOf r k pos = L) (hb : Bnd s L start r k pos cs) :
+    Tri (idealOps s kind) (readHeader r k name) pos
+      (fun r' pos' => Keeps k r pos r' pos' ∧ limOf r' k pos' = L ∧
+        ∃ c, c.name = name ∧ Open s L start r' k pos' cs c ∧ pos' = c.off) := by
+  rcases hb with hc | ⟨c, hp⟩
+  · exact next_named s kind L start r k pos cs name hk h1k hL hc
+  · apply Tri.mono (open_peeked s kind L start r k pos cs c name hk h1k hL hp)
+    intro r' p1 ⟨a, b, d, e, f⟩
+    exact ⟨a, b, c, d, e, f⟩
+
+/-- an optional metadata chunk: `read_header(name)` + `skip_data` when the flag says it is there -/
+theorem opt_rel (L start : Nat) (r : RS) (pos : Nat) (cs : List Chunk) (present : Bool) (name : Bytes)
+    (hL : limOf r 1 pos = L) (hb : Bnd s L start r 1 pos cs) :
+    Tri (idealOps s kind) (if present = true then (readHeader r 1 name).bind fun r => skipData r 1 else Prog.done r) pos
+      (fun r' pos' => Keeps 1 r pos r' pos' ∧ limOf r' 1 pos' = L ∧
+        ((present = true ∧ ∃ x, x.name = name ∧ Closed s L start r' 1 pos' (cs ++ [x])) ∨
+         (present = false ∧ r' = r ∧ pos' = pos))) := by
+  split
+  · rename_i hp
+    apply Tri.bind
+    apply Tri.mono (next_named_b s kind L start r 1 pos cs name (by decide) (by decide) hL hb)
+    intro r1 p1 ⟨k1, l1, x, hx, hop, _⟩
+    apply Tri.mono (close_chunk s kind L start r1 1 p1 cs x (by decide) (by decide) l1 hop)
+    intro r2 p2 ⟨k2, l2, hcl⟩
+    exact ⟨k1.trans k2, l2, Or.inl ⟨hp, x, hx, hcl⟩⟩
+  · rename_i hp
+    exact Tri.done ⟨Keeps.refl _ _ _, hL, Or.inr ⟨by simpa using hp, rfl, rfl⟩⟩
+
+/-- what the model has established about the chunks that follow VP8X -/
+def ExtBody (L1 : Nat) (flags cw ch : Nat) (allow : Bool) (body : List Chunk) : Prop :=
+  ∃ iccp img exif xmp,
+    body = iccp ++ img ++ exif ++ xmp ∧
+    ((flagSet flags 32 = true ∧ ∃ x, iccp = [x] ∧ x.name = FICCP) ∨ (flagSet flags 32 = false ∧ iccp = [])) ∧
+    ((flagSet flags 2 = true ∧ ∃ anim f fs, img = anim :: f :: fs ∧ anim.name = FANIM ∧ anim.len = 6 ∧
+        ∀ x ∈ f :: fs, FrameDone s L1 (flagSet flags 16) allow x) ∨
+     (flagSet flags 2 = false ∧ StillImg s L1 (flagSet flags 16) cw ch img)) ∧
+    ((flagSet flags 8 = true ∧ ∃ x, exif = [x] ∧ x.name = FEXIF) ∨ (flagSet flags 8 = false ∧ exif = [])) ∧
+    ((flagSet flags 4 = true ∧ ∃ x, xmp = [x] ∧ x.name = FXMP) ∨ (flagSet flags 4 = false ∧ xmp = []))
+
+theorem extended_rel (cfg : Config) (L1 start : Nat) (r : RS) (pos : Nat) (cs : List Chunk) (flags cw ch fuel : Nat)
+    (hL : limOf r 1 pos = L1) (hc : Closed s L1 start r 1 pos cs) :
+    Tri (idealOps s kind) (sanitizeExtended cfg r flags cw ch fuel) pos
+      (fun o pos' => ∀ r', o = some r' → Keeps 1 r pos r' pos' ∧ limOf r' 1 pos' = L1 ∧
+        ∃ body, Bnd s L1 start r' 1 pos' (cs ++ body) ∧ ExtBody s L1 flags cw ch cfg.allowUnknownChunks body) := by
+  unfold sanitizeExtended
+  apply Tri.bind
+  apply Tri.mono (opt_rel s kind L1 start r pos cs (flagSet flags 32) FICCP hL (Or.inl hc))
+  intro r1 p1 ⟨k1, l1, hiccp⟩
+  have h1 : ∃ iccp, Closed s L1 start r1 1 p1 (cs ++ iccp) ∧
+      ((flagSet flags 32 = true ∧ ∃ x, iccp = [x] ∧ x.name = FICCP) ∨ (flagSet flags 32 = false ∧ iccp = [])) := by
+    rcases hiccp with ⟨hp, x, hx, hcl⟩ | ⟨hp, e1, e2⟩
+    · exact ⟨[x], hcl, Or.inl ⟨hp, x, rfl, hx⟩⟩
+    · subst e1 e2; exact ⟨[], by rw [List.append_nil]; exact hc, Or.inr ⟨hp, rfl⟩⟩
+  obtain ⟨iccp, hcl1, hic⟩ := h1
+  apply Tri.bind
+  have mid : Tri (idealOps s kind)
+      (if flagSet flags 2 = true then sanitizeAnimated cfg r1 flags cw ch fuel
+       else (sanitizeStill r1 flags cw ch).bind fun r => Prog.done (some r)) p1
+      (fun o p2 => ∀ r2, o = some r2 → Keeps 1 r1 p1 r2 p2 ∧ limOf r2 1 p2 = L1 ∧
+        ∃ img, Bnd s L1 start r2 1 p2 (cs ++ iccp ++ img) ∧
+          ((flagSet flags 2 = true ∧ ∃ anim f fs, img = anim :: f :: fs ∧ anim.name = FANIM ∧ anim.len = 6 ∧
+              ∀ x ∈ f :: fs, FrameDone s L1 (flagSet flags 16) cfg.allowUnknownChunks x) ∨
+           (flagSet flags 2 = false ∧ StillImg s L1 (flagSet flags 16) cw ch img))) := by
+    split
+    · rename_i hf2
+      apply Tri.mono (animated_rel s kind cfg L1 start r1 p1 (cs ++ iccp) flags cw ch fuel l1 hcl1)
+      intro o p2 ho r2 hr2
+      obtain ⟨k2, l2, anim, f, fs, a1, a2, a3, a4⟩ := ho r2 hr2
+      exact ⟨k2, l2, anim :: f :: fs, a4.bnd s, Or.inl ⟨hf2, anim, f, fs, rfl, a1, a2, a3⟩⟩
+    · rename_i hf2
+      apply Tri.bind
+      apply Tri.mono (still_rel s kind L1 start r1 p1 (cs ++ iccp) flags cw ch l1 hcl1)
+      intro r2 p2 ⟨k2, l2, img, hcl2, himg⟩
+      refine Tri.done ?_
+      intro r' hr'
+      simp only [Option.some.injEq] at hr'
+      subst hr'
+      exact ⟨k2, l2, img, Or.inl hcl2, Or.inr ⟨by simpa using hf2, himg⟩⟩
+  apply Tri.mono mid
+  intro o p2 ho
+  cases o with
+  | none => exact Tri.done (by intro r' h; cases h)
+  | some r2 =>
+    obtain ⟨k2, l2, img, hb2, himg⟩ := ho r2 rfl
+    dsimp only
+    apply Tri.bind
+    apply Tri.mono (opt_rel s kind L1 start r2 p2 (cs ++ iccp ++ img) (flagSet flags 8) FEXIF l2 hb2)
+    intro r3 p3 ⟨k3, l3, hexif⟩
+    have h3 : ∃ exif, Bnd s L1 start r3 1 p3 (cs ++ iccp ++ img ++ exif) ∧
+        ((flagSet flags 8 = true ∧ ∃ x, exif = [x] ∧ x.name = FEXIF) ∨ (flagSet flags 8 = false ∧ exif = [])) := by
+      rcases hexif with ⟨hp, x, hx, hcl⟩ | ⟨hp, e1, e2⟩
+      · exact ⟨[x], Or.inl hcl, Or.inl ⟨hp, x, rfl, hx⟩⟩
+      · subst e1 e2; exact ⟨[], by rw [List.append_nil]; exact hb2, Or.inr ⟨hp, rfl⟩⟩
+    obtain ⟨exif, hb3, hex⟩ := h3
+    apply Tri.bind
+    apply Tri.mono (opt_rel s kind L1 start r3 p3 (cs ++ iccp ++ img ++ exif) (flagSet flags 4) FXMP l3 hb3)
+    intro r4 p4 ⟨k4, l4, hxmp⟩
+    have h4 : ∃ xmp, Bnd s L1 start r4 1 p4 (cs ++ iccp ++ img ++ exif ++ xmp) ∧
+        ((flagSet flags 4 = true ∧ ∃ x, xmp = [x] ∧ x.name = FXMP) ∨ (flagSet flags 4 = false ∧ xmp = [])) := by
+      rcases hxmp with ⟨hp, x, hx, hcl⟩ | ⟨hp, e1, e2⟩
+      · exact ⟨[x], Or.inl hcl, Or.inl ⟨hp, x, rfl, hx⟩⟩
+      · subst e1 e2; exact ⟨[], by rw [List.append_nil]; exact hb3, Or.inr ⟨hp, rfl⟩⟩
+    obtain ⟨xmp, hb4, hxm⟩ := h4
+    refine Tri.done ?_
+    intro r' hr'
+    simp only [Option.some.injEq] at hr'
+    subst hr'
+    refine ⟨((k1.trans k2).trans k3).trans k4, l4, iccp ++ img ++ exif ++ xmp, ?_, iccp, img, exif, xmp, rfl, hic, himg, hex, hxm⟩
+    simpa [List.append_assoc] using hb4
+
+/-- the unknown-chunk loop entered at a boundary where the next header may already have been peeked -/
+theorem trailing_rel_b (cfg : Config) (L start : Nat) (inAnmf : Bool) (fuel : Nat) (r : RS) (pos : Nat)
+    (cs : List Chunk) (hL : limOf r 1 pos = L) (hb : Bnd s L start r 1 pos cs) :
+    Tri (idealOps s kind) (trailingLoop cfg 1 inAnmf fuel r) pos
+      (fun o pos' => ∀ r', o = some r' → Keeps 1 r pos r' pos' ∧ limOf r' 1 pos' = L ∧ r'.get 1 = .idle ∧
+        ∃ us, CChain s L start pos' (cs ++ us) ∧ us.all isUnknown = true ∧
+          (us.isEmpty = true ∨ cfg.allowUnknownChunks = true) ∧ (L ≤ pos' ∨ s.len ≤ pos')) := by
+  rcases hb with hc | ⟨c, hp⟩
+  · exact trailing_rel s kind cfg L start 1 inAnmf (by decide) (by decide) fuel r pos cs hL hc
+  · cases fuel with
+    | zero => exact Tri.done (by intro r' h; cases h)
+    | succ n =>
+      unfold trailingLoop
+      apply Tri.bind
+      apply Tri.mono (hasRemaining_rel s kind r 1 pos (by decide))
+      intro x p1 ⟨k1, hp1, _, hrest⟩
+      obtain ⟨more, r1⟩ := x
+      obtain ⟨e, e1, e2, e3, hst, e5⟩ := hp
+      rw [hst] at hp1 hrest
+      simp only [bdry] at hp1
+      dsimp only at k1 hrest ⊢
+      obtain ⟨hst1, hm⟩ := hrest
+      subst hp1
+      rw [hm]
+      simp only [Bool.not_true, Bool.false_eq_true, if_false]
+      have l1 : limOf r1 1 p1 = L := by rw [k1.lim (by decide), hL]
+      have hpk1 : Peeked s L start r1 1 p1 cs c := ⟨e, e1, e2, e3, hst1, e5⟩
+      apply Tri.bind
+      apply Tri.mono (open_peeked_any s kind L start r1 1 p1 cs c (by decide) (by decide) l1 hpk1)
+      intro y p2 ⟨k2, l2, hname, hopen, _⟩
+      obtain ⟨name, r2⟩ := y
+      dsimp only at k2 l2 hname hopen ⊢
+      split
+      · exact Tri.fail
+      · rename_i hunk
+        split
+        · exact Tri.fail
+        · rename_i hallow
+          apply Tri.bind
+          apply Tri.mono (close_chunk s kind L start r2 1 p2 cs c (by decide) (by decide) l2 hopen)
+          intro r3 p3 ⟨k3, l3, hcl⟩
+          apply Tri.mono (trailing_rel s kind cfg L start 1 inAnmf (by decide) (by decide) n r3 p3 (cs ++ [c]) l3 hcl)
+          intro o p4 ho r' hr'
+          obtain ⟨a1, a2, a3, us, b1, b2, b3, b4⟩ := ho r' hr'
+          refine ⟨((k1.trans k2).trans k3).trans a1, a2, a3, c :: us, ?_, ?_, ?_, b4⟩
+          · rw [List.append_assoc] at b1; exact b1
+          · rw [List.all_cons, b2, Bool.and_true]
+            apply isUnknown_of
+            rw [← hname]
+            simpa using hunk
+          · right; simpa using hallow
+
+/-! ### the file level -/
+
+/-- the RIFF chunk level 0 is in, seen again after operations of level 1 (and 2) -/
+theorem cur_keep0 (L : Nat) (r r' : RS) (pos pos' : Nat) (c : Chunk) (hc : Cur L r 0 pos c)
+    (hk : Keeps 1 r pos r' pos') : Cur L r' 0 pos' c := by
+  unfold Cur at hc ⊢
+  have hE := hk.2.1 (by decide)
+  obtain ⟨hid, hbp⟩ := hk.2.2.2.1 (by decide)
+  simp only [RS.get] at hc ⊢
+  simp only [E0] at hE
+  have hp := hk.1
+  cases h1 : r.l0 with
+  | idle => rw [h1] at hc; exact hc.elim
+  | peeking a b => rw [h1] at hc; exact hc.elim
+  | body name len rem =>
+    rw [h1] at hc hid hE hbp
+    obtain ⟨c1, c2, c3, c4⟩ := hc
+    have hbp' : bodyPos r'.l0 := hbp (by intro a b c' hh; simp only [CState.body.injEq] at hh; omega)
+    cases h2 : r'.l0 with
+    | idle => rw [h2] at hid; simp [chunkId] at hid
+    | peeking a b => rw [h2] at hid; simp [chunkId] at hid
+    | body n2 l2 rem2 =>
+      rw [h2] at hid hE
+      simp only [chunkId, Option.some.injEq, Prod.mk.injEq] at hid
+      simp only [bodyRemaining] at hE
+      exact ⟨by rw [hid.1]; exact c1, by rw [hid.2]; exact c2, by omega, hbp' _ _ _ h2⟩
+    | padding n2 l2 =>
+      rw [h2] at hid hE
+      simp only [chunkId, Option.some.injEq, Prod.mk.injEq] at hid
+      simp only [bodyRemaining] at hE
+      exact ⟨by rw [hid.1]; exact c1, by rw [hid.2]; exact c2, by omega, fun h => by omega⟩
+  | padding name len =>
+    rw [h1] at hc hid hE hbp
+    obtain ⟨c1, c2, c3, c4⟩ := hc
+    have hbp' : bodyPos r'.l0 := hbp (by intro a b c' hh; cases hh)
+    cases h2 : r'.l0 with
+    | idle => rw [h2] at hid; simp [chunkId] at hid
+    | peeking a b => rw [h2] at hid; simp [chunkId] at hid
+    | body n2 l2 rem2 =>
+      rw [h2] at hE
+      simp only [bodyRemaining] at hE
+      have := hbp' _ _ _ h2
+      omega
+    | padding n2 l2 =>
+      rw [h2] at hid hE
+      simp only [chunkId, Option.some.injEq, Prod.mk.injEq] at hid
+      simp only [bodyRemaining] at hE
+      exact ⟨by rw [hid.1]; exact c1, by rw [hid.2]; exact c2, by omega, fun h => by omega⟩
+
+/-- inside a body, asking for a header is refused -/
+theorem readAnyHeader_body (r : RS) (k pos : Nat) (hk : k ≤ 2) (n : Bytes) (l rem : Nat) (hst : r.get k = .body n l rem) :
+    Tri (idealOps s kind) (readAnyHeader r k) pos (fun _ _ => False) := by
+  unfold readAnyHeader
+  apply Tri.bind
+  apply Tri.mono (readPadding_rel s kind r k pos hk)
+  intro r1 p1 ⟨_, hst1⟩
+  rw [hst] at hst1
+  dsimp only
+  rw [hst1.1]
+  exact Tri.fail
+
+theorem readHeader_body (r : RS) (k pos : Nat) (name : Bytes) (hk : k ≤ 2) (n : Bytes) (l rem : Nat)
+    (hst : r.get k = .body n l rem) : Tri (idealOps s kind) (readHeader r k name) pos (fun _ _ => False) := by
+  unfold readHeader
+  apply Tri.bind
+  apply Tri.mono (readPadding_rel s kind r k pos hk)
+  intro r1 p1 ⟨_, hst1⟩
+  rw [hst] at hst1
+  dsimp only
+  rw [hst1.1]
+  dsimp only
+  apply Tri.bind
+  apply Tri.mono (readAnyHeader_body s kind r1 k p1 hk n l rem hst1.1)
+  intro _ _ h
+  exact h.elim
+
+theorem Tri.of_false {E α β : Type} {p : Prog E α} {f : α → Prog E β} {pos : Nat} {Q : β → Nat → Prop}
+    (h : Tri (idealOps s kind) p pos (fun _ _ => False)) : Tri (idealOps s kind) (p.bind f) pos Q := by
+  apply Tri.bind
+  apply Tri.mono h
+  intro _ _ hf
+  exact hf.elim
+
+/-- inside the body of a chunk that was not finished, the extended-format walk is refused -/
+theorem extended_body (cfg : Config) (r : RS) (pos flags cw ch fuel : Nat) (n : Bytes) (l rem : Nat)
+    (hst : r.get 1 = .body n l rem) :
+    Tri (idealOps s kind) (sanitizeExtended cfg r flags cw ch fuel) pos (fun _ _ => False) := by
+  unfold sanitizeExtended
+  by_cases h32 : flagSet flags 32 = true
+  · simp only [h32, if_true]
+    apply Tri.of_false
+    apply Tri.of_false
+    exact readHeader_body s kind r 1 pos FICCP (by decide) n l rem hst
+  · simp only [h32, Bool.false_eq_true, if_false]
+    apply Tri.bind
+    apply Tri.done
+    apply Tri.of_false
+    by_cases h2 : flagSet flags 2 = true
+    · simp only [h2, if_true]
+      unfold sanitizeAnimated
+      apply Tri.of_false
+      exact readHeader_body s kind r 1 pos FANIM (by decide) n l rem hst
+    · simp only [h2, Bool.false_eq_true, if_false]
+      apply Tri.of_false
+      unfold sanitizeStill
+      dsimp only
+      by_cases h16 : flagSet flags 16 = true
+      · simp only [h16, if_true]
+        apply Tri.of_false
+        apply Tri.of_false
+        exact readHeader_body s kind r 1 pos FALPH (by decide) n l rem hst
+      · simp only [h16, Bool.false_eq_true, if_false]
+        apply Tri.bind
+        apply Tri.done
+        apply Tri.bind
+        apply Tri.mono (hasRemaining_rel s kind r 1 pos (by decide))
+        intro x p1 ⟨_, _, _, hrest⟩
+        obtain ⟨more, r1⟩ := x
+        rw [hst] at hrest
+        dsimp only at hrest ⊢
+        rw [hrest.2]
+        simp only [Bool.not_true, Bool.false_eq_true, if_false]
+        apply Tri.of_false
+        exact readAnyHeader_body s kind r1 1 p1 (by decide) n l rem hrest.1
+
+theorem read10 (p : Nat) : s.read p 10 = [s.get p, s.get (p+1), s.get (p+2), s.get (p+3), s.get (p+4), s.get (p+5),
+    s.get (p+6), s.get (p+7), s.get (p+8), s.get (p+9)] := by
+  simp [Stream.read, List.range_succ]
+
+def TrailingFacts (allow : Bool) (us : List Chunk) : Prop :=
+  us.all isUnknown = true ∧ (us.isEmpty = true ∨ allow = true)
+
+/-- what the model has read out of a VP8X chunk -/
+def Vp8xFacts (c : Chunk) (flags cw ch : Nat) : Prop :=
+  c.len = 10 ∧ flags = (s.get c.off).toNat ∧ flags &&& 62 = flags ∧
+  s.get (c.off + 1) = 0 ∧ s.get (c.off + 2) = 0 ∧ s.get (c.off + 3) = 0 ∧
+  cw = 1 + leToNat [s.get (c.off + 4), s.get (c.off + 5), s.get (c.off + 6)] ∧
+  ch = 1 + leToNat [s.get (c.off + 7), s.get (c.off + 8), s.get (c.off + 9)] ∧ ch * cw ≤ 4294967295
+
+/-- what the model has established about the chunks of the RIFF body -/
+def TopFacts (L1 : Nat) (allow : Bool) (all : List Chunk) : Prop :=
+  ∃ first rest, all = first :: rest ∧
+    ((first.name = FVP8 ∧ TrailingFacts allow rest) ∨
+     (first.name = FVP8L ∧ Vp8lSeen s L1 first none ∧ TrailingFacts allow rest) ∨
+     (first.name = FVP8X ∧ ∃ flags cw ch body us, rest = body ++ us ∧ Vp8xFacts s first flags cw ch ∧
+        ExtBody s L1 flags cw ch allow body ∧ TrailingFacts allow us))
+
+/-- everything the model has established about an accepted file -/
+def FileFacts (allow : Bool) : Prop :=
+  12 ≤ s.len ∧ s.read 0 4 = FRIFF ∧ s.read 8 4 = FWEBP ∧ 4 ≤ le32 s 4 ∧ le32 s 4 + 8 ≤ 4294967294 ∧
+  le32 s 4 + 8 + le32 s 4 % 2 = s.len ∧ (le32 s 4 % 2 = 1 → s.get (8 + le32 s 4) = 0) ∧
+  ∃ all, CChain s (8 + le32 s 4) 12 (8 + le32 s 4) all ∧ TopFacts s (8 + le32 s 4) allow all
+
+theorem sanitizeP_rel (cfg : Config) (fuel : Nat) :
+    Tri (idealOps s kind) (sanitizeP cfg fuel) 0 (fun o _ => o = some () → FileFacts s cfg.allowUnknownChunks) := by
+  unfold sanitizeP
+  dsimp only
+  apply Tri.bind
+  apply Tri.mono (readHeader_rel s kind {} 0 0 FRIFF (by decide) (Or.inl rfl))
+  intro r1 p1 ⟨k1, _, hrest⟩
+  have hb0 : bdry (({} : RS).get 0) 0 = 0 := rfl
+  rw [hb0] at hrest
+  obtain ⟨_, h8, hp1, hriff, hget1⟩ := hrest
+  subst hp1
+  -- the RIFF chunk, in absolute terms
+  have hcur1 : Cur 0 r1 0 (0 + 8) (hdrAt s 0) := cur_fresh s 0 r1 0 0 (by rw [hget1, hriff]) (fun h => by omega)
+  have hsize : (hdrAt s 0).len = le32 s 4 := rfl
+  have hoff : (hdrAt s 0).off = 8 := rfl
+  have hrl : riffLen r1.l0 = le32 s 4 + 8 := by
+    have : r1.l0 = fresh FRIFF (hdrAt s 0).len := hget1
+    rw [this, hsize]
+    unfold fresh
+    by_cases h0 : le32 s 4 = 0
+    · simp [h0, riffLen]
+    · simp [h0, riffLen]
+  rw [hrl]
+  apply Tri.bind
+  apply Tri.mono (readData_rel s kind r1 0 4 (0 + 8) (by decide) (hdrAt s 0) (by simpa [limOf] using hcur1))
+  intro x p2 ⟨k2, hx1, hp2, hle2, hlen2, hcur2⟩
+  obtain ⟨b, r2⟩ := x
+  dsimp only at k2 hx1 hcur2 ⊢
+  subst hp2
+  rw [hoff, hsize] at hle2
+  split
+  · exact Tri.fail
+  rename_i hwebp
+  split
+  · exact Tri.fail
+  rename_i hmax
+  have hwebp' : s.read 8 4 = FWEBP := by
+    have : b = FWEBP := by simpa using hwebp
+    rw [← this, hx1]
+  -- level 1 starts here
+  have hcur2' : Cur 0 r2 0 12 (hdrAt s 0) := by simpa [limOf] using hcur2
+  have hE0 : E0 (r2.set 1 .idle) 12 = 8 + le32 s 4 := by
+    have hc := hcur2'
+    unfold Cur at hc
+    simp only [RS.get] at hc
+    simp only [E0, RS.set]
+    cases h : r2.l0 with
+    | idle => rw [h] at hc; exact hc.elim
+    | peeking a b => rw [h] at hc; exact hc.elim
+    | body n l rem =>
+      rw [h] at hc; simp only [bodyRemaining]
+      have := hc.2.2.1; rw [hoff, hsize] at this; omega
+    | padding n l =>
+      rw [h] at hc; simp only [bodyRemaining]
+      have := hc.2.2.1; rw [hoff, hsize] at this; omega
+  have hL1 : limOf (r2.set 1 .idle) 1 12 = 8 + le32 s 4 := by simpa [limOf] using hE0
+  have hks : Keeps 1 r2 12 (r2.set 1 .idle) 12 := keeps_set r2 1 12 .idle (by decide)
+  have hcl0 : Closed s (8 + le32 s 4) 12 (r2.set 1 .idle) 1 12 [] := Closed.start s _ _ 1 12 (by simp [RS.get, RS.set])
+  apply Tri.bind
+  apply Tri.mono (next_header s kind _ 12 (r2.set 1 .idle) 1 12 [] (by decide) (by decide) hL1 hcl0)
+  intro y q3 ⟨k3, l3, first, hfn, hop3, hq3, _⟩
+  obtain ⟨name, r3⟩ := y
+  dsimp only at k3 l3 hfn hop3 hq3 ⊢
+  subst hq3
+  apply Tri.bind
+  have firstPart : Tri (idealOps s kind)
+      (if name = FVP8 then (skipData r3 1).bind fun r => Prog.done (some r)
+       else if name = FVP8L then (vp8lChunk r3 1 none).bind fun r => Prog.done (some r)
+       else if name = FVP8X then
+         (parseData r3 1 Generated.schemaVp8xChunk).bind fun x =>
+           match x with
+           | (vs, r) => sanitizeExtended cfg r (vs.getD 0 0) (vs.getD 2 0) (vs.getD 3 0) fuel
+       else Prog.fail WErr.invalidChunkLayout) first.off
+      (fun o p4 => ∀ r4, o = some r4 → Keeps 1 r3 first.off r4 p4 ∧ limOf r4 1 p4 = 8 + le32 s 4 ∧
+        ∃ mid, Bnd s (8 + le32 s 4) 12 r4 1 p4 (first :: mid) ∧
+          ((first.name = FVP8 ∧ mid = []) ∨
+           (first.name = FVP8L ∧ Vp8lSeen s (8 + le32 s 4) first none ∧ mid = []) ∨
+           (first.name = FVP8X ∧ ∃ flags cw ch, Vp8xFacts s first flags cw ch ∧
+              ExtBody s (8 + le32 s 4) flags cw ch cfg.allowUnknownChunks mid))) := by
+    split
+    · rename_i hv
+      apply Tri.bind
+      apply Tri.mono (close_chunk s kind _ 12 r3 1 first.off [] first (by decide) (by decide) l3 hop3)
+      intro r4 p4 ⟨k4, l4, hcl⟩
+      refine Tri.done ?_
+      intro r' hr'
+      simp only [Option.some.injEq] at hr'
+      subst hr'
+      exact ⟨k4, l4, [], Or.inl hcl, Or.inl ⟨by rw [← hfn]; exact hv, rfl⟩⟩
+    · split
+      · rename_i hv
+        apply Tri.bind
+        apply Tri.mono (vp8lChunk_rel s kind _ 12 r3 1 first.off [] first none (by decide) (by decide) l3 hop3 rfl)
+        intro r4 p4 ⟨k4, l4, hcl, hseen⟩
+        refine Tri.done ?_
+        intro r' hr'
+        simp only [Option.some.injEq] at hr'
+        subst hr'
+        exact ⟨k4, l4, [], Or.inl hcl, Or.inr (Or.inl ⟨by rw [← hfn]; exact hv, hseen, rfl⟩)⟩
+      · split
+        · rename_i hv
+          apply Tri.bind
+          apply Tri.mono (parseData_rel s kind r3 1 first.off Generated.schemaVp8xChunk (by decide) first (by rw [l3]; exact hop3.cur s))
+          intro z p4 ⟨k4, hp4, hle4, ⟨rest, hparse⟩, hcur4⟩
+          obtain ⟨vs, r4⟩ := z
+          rw [l3] at hcur4
+          rw [vp8x_len] at hp4 hle4 hparse
+          rw [read10] at hparse
+          obtain ⟨q1, q2, q3, q4, q5, q6⟩ := vp8x_parse_spec _ _ _ _ _ _ _ _ _ _ vs rest hparse
+          dsimp only at k4 hcur4 ⊢
+          have l4 : limOf r4 1 p4 = 8 + le32 s 4 := by rw [k4.lim (by decide), l3]
+          have hop4 := hop3.recur s hcur4
+          -- the VP8X chunk must be finished
+          cases hst : r4.get 1 with
+          | idle => have := hcur4; unfold Cur at this; rw [hst] at this; exact this.elim
+          | peeking a b => have := hcur4; unfold Cur at this; rw [hst] at this; exact this.elim
+          | body n l rem =>
+            apply Tri.mono (extended_body s kind cfg r4 p4 _ _ _ fuel n l rem hst)
+            intro _ _ h; exact h.elim
+          | padding n l =>
+            obtain ⟨hcl4, hpos4⟩ := hop4.closed s (by decide) n l hst
+            apply Tri.mono (extended_rel s kind cfg _ 12 r4 p4 ([] ++ [first]) _ _ _ fuel l4 hcl4)
+            intro o p5 ho r' hr'
+            obtain ⟨k5, l5, body, hbnd, hext⟩ := ho r' hr'
+            refine ⟨k4.trans k5, l5, body, by simpa using hbnd, Or.inr (Or.inr ⟨by rw [← hfn]; exact hv, _, _, _, ?_, hext⟩)⟩
+            rw [q5]
+            simp only [List.getD_cons_zero, List.getD_cons_succ]
+            exact ⟨by omega, rfl, q1, q2, q3, q4, rfl, rfl, q6⟩
+        · exact Tri.fail
+  apply Tri.mono firstPart
+  intro o p4 ho
+  cases o with
+  | none => exact Tri.done (by intro h; cases h)
+  | some r4 =>
+    obtain ⟨k4, l4, mid, hbnd4, hmid⟩ := ho r4 rfl
+    dsimp only
+    apply Tri.bind
+    apply Tri.mono (trailing_rel_b s kind cfg _ 12 false fuel r4 p4 (first :: mid) l4 hbnd4)
+    intro o2 p5 ho2
+    cases o2 with
+    | none => exact Tri.done (by intro h; cases h)
+    | some r5 =>
+      obtain ⟨k5, l5, hidle5, us, hch5, hunk, hallow, hend5⟩ := ho2 r5 rfl
+      dsimp only
+      -- back on level 0
+      have hk1all : Keeps 1 r2 12 r5 p5 := ((hks.trans k3).trans k4).trans k5
+      have hcur5 : Cur 0 r5 0 p5 (hdrAt s 0) := cur_keep0 0 r2 r5 12 p5 (hdrAt s 0) hcur2' hk1all
+      apply Tri.bind
+      apply Tri.mono (hasRemaining_rel s kind r5 0 p5 (by decide))
+      intro w p6 ⟨k6, hp6, hpad6, hrest6⟩
+      obtain ⟨more, r6⟩ := w
+      dsimp only at hrest6 ⊢
+      split
+      · exact Tri.fail
+      · rename_i hmore
+        have hmf : more = false := by simpa using hmore
+        apply Tri.position
+        apply Tri.streamLen
+        split
+        · rename_i hfin
+          refine Tri.done ?_
+          intro _
+          -- the RIFF chunk is finished: level 0 is in its padding state
+          have hc := hcur5
+          unfold Cur at hc
+          cases hst : r5.get 0 with
+          | idle => rw [hst] at hc; exact hc.elim
+          | peeking a b => rw [hst] at hc; exact hc.elim
+          | body n l rem => rw [hst] at hrest6; rw [hrest6.2] at hmf; cases hmf
+          | padding n l =>
+            rw [hst] at hc hp6 hpad6 hrest6
+            obtain ⟨c1, c2, c3, _⟩ := hc
+            rw [hoff, hsize] at c3
+            rw [hsize] at c2
+            simp only [bdry] at hp6
+            simp only [PadDone, PadOk] at hpad6
+            have hsl : s.len ≤ p6 := by
+              rcases hrest6.2.mp hmf with ⟨h0, _⟩ | h
+              · omega
+              · exact h
+            have hp5 : p5 = 8 + le32 s 4 := c3
+            refine ⟨by have := hlen2 (by decide); omega, hriff, hwebp', by omega, by unfold Generated.webpMaxFileLen at hmax; omega, by omega, ?_, first :: mid ++ us, ?_, ?_⟩
+            · intro hodd
+              rw [c2] at hpad6
+              have := (hpad6 hodd).2
+              rw [hp5] at this
+              exact this
+            · rw [hp5] at hch5; exact hch5
+            · refine ⟨first, mid ++ us, rfl, ?_⟩
+              rcases hmid with ⟨a, b⟩ | ⟨a, b, c⟩ | ⟨a, fl, cw, ch, b, c⟩
+              · left; subst b; exact ⟨a, hunk, hallow⟩
+              · right; left; subst c; exact ⟨a, b, hunk, hallow⟩
+              · right; right; exact ⟨a, fl, cw, ch, mid, us, rfl, b, c, hunk, hallow⟩
+        · exact Tri.fail
+
 end
 end MediaSan.Webp
